@@ -17,10 +17,10 @@ func init() {
 		Level: "Decides that no WAL record, head chunk or tombstone file content leaves its reader before the checksum comparison that guards it, that every decode error during replay is turned " +
 			"into a positioned corruption error, that repair is only entered from a failed replay and only deletes what lies after the damage, and that a failed m-map/snapshot load discards " +
 			"everything derived from it before the WAL is replayed.",
-		Note:     "Trusted: go/packages, go/cfg; CRC32 as integrity function; rule tables in checker/c04.go.",
-		Covers:   "CRC gates in wlog.Reader/LiveReader, ChunkDiskMapper.Chunk/IterateAllChunks, tombstones.ReadTombstones; CorruptionErr construction in all decode-error arms of Head.loadWAL/loadWBL/agent loadWAL; repair entry conditions in open(); WL.Repair deletion guard; Head.Init recovery path.",
-		NotCover: "that CRC32 detects every alteration; equality of the recovered content with the undamaged prefix.",
-		Run:      runC04,
+		Note:           "Trusted: go/packages, go/cfg; CRC32 as integrity function; rule tables in checker/c04.go.",
+		Covers:         "CRC gates in wlog.Reader/LiveReader, ChunkDiskMapper.Chunk/IterateAllChunks, tombstones.ReadTombstones; CorruptionErr construction in all decode-error arms of Head.loadWAL/loadWBL/agent loadWAL; repair entry conditions in open(); WL.Repair deletion guard; Head.Init recovery path.",
+		NotCover:       "that CRC32 detects every alteration; equality of the recovered content with the undamaged prefix.",
+		Run:            runC04,
 		MinObligations: 40,
 	})
 }
